@@ -18,6 +18,10 @@ func (e *Engine) newBareCtx(name string) *FnCtx {
 	fc.entryHeap = fc.baseHeap()
 	fc.heap = fc.entryHeap
 	fc.curReach = "true"
+	fc.ghostSort["now"] = sInt
+	fc.declare("now@0", sInt)
+	fc.ghost["now"] = "now@0"
+	fc.ghost0["now"] = "now@0"
 	fc.ghostSort["held"] = arrSort(sBool)
 	fc.declare("held@0", arrSort(sBool))
 	fc.ghost["held"] = "held@0"
